@@ -35,6 +35,9 @@ structure Kw where
   hasDisc : Bool := false
   discProp : String := ""
   discMapping : List (String × String) := []
+  /-- `default` (`Schema.Default`): `none` when absent or JSON null (a nil `any`); not looked at by `IsEmpty`;
+  only read by the injection loop of visitJSONObject (KinModel/Schema/Defaults.lean) -/
+  dflt : Option J := none
   deriving Inhabited
 
 inductive S where
@@ -53,6 +56,10 @@ structure Env where
   asrep : Bool := false
   roOff : Bool := false
   woOff : Bool := false
+  /-- `DisablePatternValidation()`: the `pattern` keyword is not evaluated -/
+  patOff : Bool := false
+  /-- `DefaultsSet(f)` given: absent properties receive their schema's `default` (only under asreq / asrep) -/
+  dfl : Bool := false
 
 def Kw.includes (kw : Kw) (t : String) : Bool :=
   match kw.types with | none => false | some ts => ts.contains t
